@@ -58,8 +58,8 @@ package sqlite
 //@   requires s != nil && rows != nil && eventCount != nil && iterErr != nil && yield != nil && rowpos(payload(rows)) == 0
 // the counter never overflows because it never exceeds the (int64) position of
 // the last row counted: the rows of a batch lie strictly after the cursor
-//@   requires isSelectAfter(rowsQuery(payload(rows))) && 0 <= payload(rowsArg(payload(rows), 0))
-//@   requires 0 <= *eventCount && *eventCount <= payload(rowsArg(payload(rows), 0))
+//@   requires isSelectAfter(rowsQuery(payload(rows)))
+//@   requires 0 <= *eventCount && *eventCount <= ite(payload(rowsArg(payload(rows), 0)) > 0, payload(rowsArg(payload(rows), 0)), 0)
 //@   requires exclusive(eventCount)
 //@   requires exclusive(iterErr)
 //@   loop 1 invariant [C11.batch.last] (batchCount > 0 ==> lastPos == scancolInt(payload(rows), batchCount - 1, 0)) && (batchCount == 0 ==> lastPos == 0)
@@ -140,6 +140,14 @@ package sqlite
 
 //@ immutable {C10,C11} SQLiteStore.db SQLiteStore.cfg SQLiteStore.logger SQLiteStore.metricsHook SQLiteStore.appendStmt SQLiteStore.readStmt SQLiteStore.readFromStmt SQLiteStore.saveOffsetStmt SQLiteStore.loadOffsetStmt
 //@ initwriter (*SQLiteStore).prepareStatements
+//@ immutable {C10,C11} config.streamBatchSize config.busyTimeout config.autoMigrate config.logger config.metricsHook config.path
+//@ initwriter WithBusyTimeout$1
+//@ initwriter WithAutoMigrate$1
+//@ initwriter WithLogger$1
+//@ initwriter WithMetricsHook$1
+//@ initwriter WithStreamBatchSize$1
+//@ initwriter New
+//@ initwriter defaultConfig
 
 //@ event qStmt := call (*Stmt).QueryContext
 //@ event qDB := call (*DB).QueryContext
@@ -209,10 +217,42 @@ package sqlite
 //@ func (*SQLiteStore).streamBatched
 //@   props C11
 //@   requires s != nil && ctx != nil && s.db != nil && s.cfg != nil && eventCount != nil && iterErr != nil && yield != nil
-//@   requires 0 <= fromPosition && 0 <= *eventCount && *eventCount <= fromPosition && s.cfg.streamBatchSize > 0
+//@   requires 0 <= *eventCount && *eventCount <= ite(fromPosition > 0, fromPosition, 0) && s.cfg.streamBatchSize > 0
 //@   requires exclusive(eventCount)
 //@   requires exclusive(iterErr)
 //@   loop 1 invariant [C11.batched.cursor] currentPos == ite(cnt(batchCall) == 0, fromPosition, lastresi(batchCall, 1)) && (cnt(batchCall) > 0 ==> lastresi(batchCall, 2, Bool) && lastresi(batchCall, 0) >= batchSize)
-//@   loop 1 invariant [C11.batched.count] 0 <= *eventCount && *eventCount <= currentPos && 0 <= currentPos
+//@   loop 1 invariant [C11.batched.count] 0 <= *eventCount && *eventCount <= ite(currentPos > 0, currentPos, 0)
 //@   at call:(*DB).QueryContext assert [C11.batched.query] query == SQL_READ()
 //@   at call:(*SQLiteStore).streamBatch assert [C11.batched.args] payload(rowsArg(rows, 0)) == currentPos && payload(rowsArg(rows, 1)) == batchSize
+
+// ---------------------------------------------------------------- ReadStream (C11)
+//@ event rowsCall := call (*SQLiteStore).streamRows
+//@ event batchedCall := call (*SQLiteStore).streamBatched
+//@ func (*SQLiteStore).ReadStream
+//@   props C11
+//@   requires s != nil
+//@   ensures [C11.sqlite.stream.closure] result != nil
+
+// The iterator body.  yield sites: #1 invalid offset, #2 query error.
+//@ func (*SQLiteStore).ReadStream$1
+//@   props C11 C10
+//@   requires s != nil && ctx != nil && s.cfg != nil && s.db != nil && StmtInv(s) && yield != nil
+//@   ensures [C11.sqlite.stream.invalid] from != "" && !isDec(from) ==> cnt(yieldErr1) == 1 && lastarg(yieldErr1, 1) == nil && lastarg(yieldErr1, 2, Iface) != nil &&
+//@        cnt(qStmt) == 0 && cnt(batchedCall) == 0 && cnt(rowsCall) == 0
+//@   ensures [C11.sqlite.stream.batched] (from == "" || isDec(from)) && s.cfg.streamBatchSize > 0 ==> cnt(batchedCall) == 1 && lastarg(batchedCall, 2) == posOfOffset(from) && cnt(qStmt) == 0
+//@   ensures [C11.sqlite.stream.cursor] (from == "" || isDec(from)) && s.cfg.streamBatchSize <= 0 ==> cnt(qStmt) == 1 && lastarg(qStmt, 0) == s.readFromStmt && cnt(batchedCall) == 0
+//@   ensures [C11.sqlite.stream.qerr] cnt(qStmt) == 1 && lastresi(qStmt, 1, Iface) != nil ==> cnt(y2) == 1 && lastarg(y2, 1) == nil && lastarg(y2, 2, Iface) != nil && cnt(rowsCall) == 0
+//@   ensures [C11.sqlite.stream.rows] cnt(qStmt) == 1 && lastresi(qStmt, 1, Iface) == nil ==> cnt(rowsCall) == 1 && payload(lastarg(rowsCall, 2, Iface)) == lastresi(qStmt, 0) &&
+//@        payload(rowsArg(lastresi(qStmt, 0), 0)) == posOfOffset(from)
+
+// ---------------------------------------------------------------- construction
+// newFromDB: the store it returns satisfies StmtInv (all five statements
+// prepared from the pinned texts) - the precondition of every operation.
+//@ func newFromDB
+//@   props C10
+//@   requires db != nil && cfg != nil
+//@   ensures [C10.sqlite.new.inv] err == nil ==> result0 != nil && StmtInv(result0) && result0.db == db && result0.cfg == cfg && fresh(result0)
+//@   ensures [C10.sqlite.new.err] err != nil ==> result0 == nil
+//@ func sql.(*DB).Close(db)
+//@   trusted
+//@   effect pure
